@@ -573,10 +573,19 @@ def _synthetic_fix_batch(tables, rng, n):
     drv.p.stdin.close()
     for which, action, old, real in reals:
         lean = drv.p.stdout.readline().rstrip("\n")
-        if lean.rstrip() != real.rstrip():
+        if _canon_outcome(lean) != _canon_outcome(real):
             mism.append((which, action, old, real, lean))
     drv.p.wait()
     return len(cases), outcomes, mism
+
+
+def _canon_outcome(s):
+    """the bfix driver names errors as Python does (`err IndexError`), this module as Lean's Repr does
+    (`err Vsgm.Base.PyErr.indexError`): compare the error constructor only, case-insensitively"""
+    s = s.rstrip()
+    if s.startswith("err "):
+        return "err " + s[4:].replace("Vsgm.Base.PyErr.", "").replace(":", " ").split(" ")[0].lower()
+    return s
 
 
 if __name__ == "__main__":
